@@ -77,6 +77,7 @@ fn compare(
     got: &Streams,
 ) {
     acc.res.evaluations += 1;
+    acc.res.sample(|| J::obj(vec![("iface", J::s(iface.name)), ("stream", J::s(esc(stream))), ("n", n.into()), ("chunks", chunks_json(chunks)), ("pend_seed", pend.into()), ("clause", J::s(clause)), ("outcome", J::strs(got.show()))]));
     if got != reference {
         let sig = format!("{}/{}", clause, diff_sig(reference, got));
         acc.res.add_violation(Violation {
@@ -392,10 +393,12 @@ pub fn run(ctx: &Ctx) -> PropResult {
     res.cov("handler_calls_in_references", calls);
     res.cov("errors_in_references", errors);
     res.cov("exhaustive_compositions_up_to_len", max_len);
-    res.samples = vec![
+    res.samples.truncate(5);
+    let described: Vec<J> = vec![
         J::obj(vec![("stream", J::s("C\\nA:B\\n")), ("n", 4usize.into()), ("chunks", J::Arr(vec![J::Int(4), J::Int(2)]))]),
         J::obj(vec![("stream", J::s(esc(&shorts[shorts.len() / 2].0))), ("n", 7usize.into()), ("chunks", J::s("all compositions"))]),
     ];
+    res.samples.extend(described.into_iter().take(1));
     res.assumptions = vec!["handler results are a pure function of (declaration, arguments)".into()];
     if comps == 0 || calls == 0 {
         res.inconclusive = Some("no executions compared".into());
